@@ -23,6 +23,7 @@ RULE = ("one run = FastEtherCat + one (in 'two-groups': two, on disjoint termina
         "space; distinct = distinct event-log digests; non-trivial = at least 10 passes in "
         "which the group program ran")
 RULE += "; since the 4th session 'wire-faults' also starves user space for 105-165 ms (frames dropped at the socket) with the rule that a frame the program left alone does not go back enabled, and 'nofault' also stops the group, grows a terminal and starts the same object again (refused, or judged against the new layout)"
+RULE += "; 'wkc-faults' also: wrong counters on write datagrams that went round disabled, and the shipped RandomDropper device in the group (25 %)"
 COMPONENTS = {
     "real": ["ebpfcat.ebpfcat.SterilePacket.sterile/activate", "FastSyncGroup.program/run/"
              "update_devices", "EtherXDP.program", "FastEtherCat.connect/register_sync_group",
